@@ -67,8 +67,20 @@ InnerCase(j) ==        \* [first, plain]: first inner type and the plaintext (a 
     [] j = 12 -> [first |-> FirstOf(ch), plain |-> Padded(<< >>), cls |-> "free"]                            \* announces payloads, carries none
     [] OTHER -> LET v == (j - 13) * 17 % 256 IN                                                           \* arbitrary pad-length octets on 32 octets of plaintext
                 [first |-> 40, plain |-> << 0, 0, 0, 20 >> \o D(27, j) \o << v >>, cls |-> IF v + 1 > 32 THEN "reject" ELSE "free"]
-NInner == 12 + 16
+\* ---- authentic datagrams with unsupported payloads in the cleartext chain IN FRONT of the Encrypted payload (C13 through unprotection)
+OuterPre(j) == CASE j = 1 -> << [t |-> 49, crit |-> 0, body |-> << 1, 2, 3 >>] >>
+                 [] j = 2 -> << [t |-> 200, crit |-> 0, body |-> << >>], [t |-> 255, crit |-> 0, body |-> Zeros(33)] >>
+                 [] OTHER -> << [t |-> 50, crit |-> 1, body |-> << 9 >>] >>
+OuterVector(s, r, j) ==
+  LET keys == KeysOf(s, 1) ch == PlainChain(NormChain(InnerBase.payloads))
+      w == RefProtectOuter(InnerBase, OuterPre(j), FirstOf(ch), Padded(EncChainW(ch)), s, keys, r, PadFill(j + 3, 16)) IN
+  Vector("sk_outer", <<
+    SaNew("R", s, keys),
+    UnprotectCaps("C13", "R", ~r, w, IF j % 2 = 0 THEN "nil" ELSE "pre",
+                  IF j <= 2 THEN AcceptExp(InnerBase) ELSE [panic |-> FALSE, capdiff |-> FALSE, err |-> TRUE]) >>)
+NInner == 12 + 16 + 3
 InnerVector(s, r, j) ==
+  IF j > 28 THEN OuterVector(s, r, j - 28) ELSE
   LET c == InnerCase(j) keys == KeysOf(s, 1)
       w == RefProtectRaw(InnerBase, c.first, c.plain, s, keys, r, PadFill(j, 16)) IN
   Vector("sk_inner", <<
@@ -78,13 +90,17 @@ InnerVector(s, r, j) ==
                     [] OTHER -> [panic |-> FALSE, capdiff |-> FALSE]) >>)
 
 \* ---- messages whose protected form fits the 16-bit payload length only with (near-)minimal padding: inner chains of
-\* 65472..65487 octets.  Protection may legally refuse them if it pads more; if it produces a datagram, the peer must accept it.
-BigInner(j) == Msg(3, << [k |-> "V", data |-> D(65464 + j, 6)] >>)          \* inner chain = 65468 + j octets, j in 4..19
+\* 65472..65487 octets, and chains of 65488..65511 octets that cannot fit at all.  Protection may legally refuse the former if it
+\* pads more and must refuse the latter; whenever it produces a datagram, both length fields state its real sizes (lenok) and the
+\* peer accepts it.
+NBig == 40
+BigInner(j) == Msg(3, << [k |-> "V", data |-> D(65464 + j, 6)] >>)          \* inner chain = 65468 + j octets, j in 4..43
 BigVector(s, r, j) ==
   LET m == BigInner(j) IN
   Vector("sk_big", <<
     SaNew("S", s, KeysOf(s, 1)), SaNew("R", s, KeysOf(s, 1)),
-    Step("protect", "C01", FALSE, [sa |-> "S", role |-> r, msg |-> m, rand |-> "system"], [panic |-> FALSE]),
+    Step("protect", IF j > 19 THEN "C06" ELSE "C01", FALSE, [sa |-> "S", role |-> r, msg |-> m, rand |-> "system"],
+         IF j > 19 THEN [panic |-> FALSE, err |-> TRUE, lenok |-> TRUE] ELSE [panic |-> FALSE, lenok |-> TRUE]),
     OptStep(UnprotectStep("C01", "R", ~r, Ref(3, "wire"), IF j % 2 = 0 THEN "nil" ELSE "pre", AcceptExp(m))) >>)
 
 \* ---- many messages protected on ONE long-lived object in one role (sizes vary so that pad lengths vary), each accepted by the peer
@@ -96,7 +112,7 @@ SeqVector(s, r, n) ==
        IF i % 2 = 1 THEN ProtectStep(pp, "S", r, SeqMsg((i + 1) \div 2), "system")
        ELSE UnprotectStep(pu, "R", ~r, Ref(i + 1, "wire"), "nil", AcceptExp(SeqMsg(i \div 2)))])
 
-NVariants == 9 + 16 + NInner + 16 + 1
+NVariants == 9 + 16 + NInner + NBig + 1
 Init == stage = 0 /\ su = 0 /\ role = TRUE /\ mi = 0 /\ variant = 0
 Next ==
   \/ stage = 0 /\ stage' = 1 /\ su' \in 1..9 /\ role' \in BOOLEAN /\ UNCHANGED << mi, variant >>
@@ -110,8 +126,8 @@ Next ==
                          \/ (v = 9 /\ su = 1)
                          \/ (v >= 10 /\ v <= 25 /\ mi <= 6 /\ (v + mi + su) % 4 = 0)
                          \/ (v > 25 /\ v <= 25 + NInner /\ mi = 1 /\ (v + su) % 3 = 0)
-                         \/ (v > 25 + NInner /\ v <= 25 + NInner + 16 /\ mi = 1 /\ (v + su) % 8 = 0)
-                         \/ (v = 25 + NInner + 17 /\ mi = 1) }
+                         \/ (v > 25 + NInner /\ v <= 25 + NInner + NBig /\ mi = 1 /\ (v + su) % 8 = 0)
+                         \/ (v = 25 + NInner + NBig + 1 /\ mi = 1) }
      /\ (variant' > 25 => mi = 1)
      /\ (variant' >= 10 /\ variant' <= 25 => Len(EncChain(NormChain(M(mi).payloads))) < 4000)
   \/ stage = 3 /\ UNCHANGED << stage, su, role, mi, variant >>
@@ -120,7 +136,7 @@ Vec == IF variant <= 8 THEN RoundTripVector(SuiteSeq[su], role, M(mi), variant)
        ELSE IF variant = 9 THEN FallbackVector(M(mi))
        ELSE IF variant <= 25 THEN RefVector(SuiteSeq[su], role, M(mi), variant - 9)
        ELSE IF variant <= 25 + NInner THEN InnerVector(SuiteSeq[su], role, variant - 25)
-       ELSE IF variant <= 25 + NInner + 16 THEN BigVector(SuiteSeq[su], role, variant - 25 - NInner + 3)
+       ELSE IF variant <= 25 + NInner + NBig THEN BigVector(SuiteSeq[su], role, variant - 25 - NInner + 3)
        ELSE SeqVector(SuiteSeq[su], role, IF Thorough THEN (IF OnlySeq THEN 150 ELSE 60) ELSE (IF OnlySeq THEN 40 ELSE 24))
 Emit == stage = 3 => PrintT(ToJson(Vec))
 Sound == stage = 3 /\ variant <= 25 => Encodable(M(mi)) /\ FitsProtected(M(mi), SuiteSeq[su])
